@@ -527,6 +527,7 @@ class Translator:
         if k in ('VarDecl', 'ParmVarDecl', 'BindingDecl'):
             d = self.byid.get(rd['id'], rd)
             nm = self.local_name(rd)
+            if rd['id'] in self.decoder_vars: return nm
             if k != 'BindingDecl' and self.is_ref(d.get('type', rd.get('type', {'qualType': ''}))):
                 return '(*%s)' % nm
             if k == 'BindingDecl':
@@ -565,9 +566,21 @@ class Translator:
                 et = self.ctype_s(m.group(1))
                 self.globals[nm] = 'static %s %s[%s] = %s;' % (et, nm, m.group(2), self.const_init(ins[0]) if ins else '{0}')
             else:
-                self.globals[nm] = 'static %s %s = %s;' % (self.ctype_s(t), nm, self.const_init(ins[0]) if ins else '0')
+                self.in_global_init = getattr(self, 'in_global_init', 0) + 1
+                try:
+                    init = self.const_init(ins[0]) if ins else '0'
+                finally:
+                    self.in_global_init -= 1
+                self.globals[nm] = 'static %s %s = %s;' % (self.ctype_s(t), nm, init)
+                if not hasattr(self, 'global_scalar_init'): self.global_scalar_init = {}
+                self.global_scalar_init[nm] = '((%s)%s)' % (self.ctype_s(t).replace('const ', ''), init)
+            self.globals[nm] = self.globals.pop(nm)      # after the constants its initialiser uses
             self.curfn, self.loopno = save
             self.rules['namespace/class-scope constant -> static const global'] += 1
+        if getattr(self, 'in_global_init', 0) and nm in getattr(self, 'global_scalar_init', {}):
+            # inside another constant's initialiser: substitute the value expression, so that every initialiser is a constant
+            # expression (CBMC runs non-constant static initialisers in symbol order, not dependency order)
+            return self.global_scalar_init[nm]
         return nm
     def const_init(self, n):
         s = strip_casts(n)
@@ -808,7 +821,12 @@ class Translator:
             x = self.e(a)
             if self.pre_stmts is None: raise Unsupported('temporary bound to reference outside statement context')
             t = self.fresh()
-            self.pre_stmts.append('%s %s = %s;' % (self.ctype(s['type']).replace('const ', ''), t, x))
+            ty = s['type']; w = a
+            while w.get('kind') in ('ImplicitCastExpr', 'ParenExpr', 'ExprWithCleanups', 'CXXBindTemporaryExpr', 'MaterializeTemporaryExpr'):
+                if w['kind'] == 'ImplicitCastExpr' and w.get('castKind') in ('DerivedToBase', 'UncheckedDerivedToBase'):
+                    ty = w['type']; break            # the temporary holds the base subobject the cast selects
+                w = inner(w)[0]
+            self.pre_stmts.append('%s %s = %s;' % (self.ctype(ty).replace('const ', ''), t, x))
             self.rules['temporary bound to reference parameter -> named local'] += 1
             return '&' + t
         x = self.e(a)
@@ -887,7 +905,7 @@ class Translator:
         d = self.byid.get(mid)
         objtype = qt(obj['type'])
         args = ins[1:]
-        if d is None or not self.in_repo(d):
+        if d is None or not self.in_repo(d) or objtype.replace('const ', '').startswith('Matcher<'):
             return self.std_member_call(me['name'], obj, objtype, args, n, me)
         dd = self.byid[self.defn.get(mid, mid)]
         if me.get('isArrow'):
@@ -952,12 +970,22 @@ class Translator:
 
     def std_member_call(self, name, obj, objtype, args, n, me):
         ot = objtype.replace('const ', '')
-        if ot.startswith('std::atomic<'):
+        if ot.startswith('Matcher<'):
+            ox = self.e(obj)
+            if name == 'NeedExpansion':
+                self.rules['Matcher::NeedExpansion -> VERIF_DECODER_NEED_EXPANSION'] += 1
+                return 'VERIF_DECODER_NEED_EXPANSION(%s)' % ox
+            if name == 'call':
+                self.rules['Matcher::call -> VERIF_DECODER_CALL'] += 1
+                return 'VERIF_DECODER_CALL(%s, %s)' % (ox, ', '.join([self.addr(args[0])] + [self.e(a) for a in args[1:]]))
+            raise Unsupported('Matcher member ' + name)
+        if ot.startswith('std::atomic<') or ot.startswith('std::__atomic_base<'):
             ox = self.e(obj)
             if name == 'exchange':
                 self.rules['std::atomic::exchange -> VERIF_EXCHANGE (sequential)'] += 1
                 return 'VERIF_EXCHANGE(%s, %s)' % (ox, self.e(args[0]))
             if name in ('load',): return ox
+            if name.startswith('operator '): return ox
             if name in ('store',): return '(%s = %s)' % (ox, self.e(args[0]))
             if name.startswith('operator '): return ox
         if ot.startswith('std::array<'):
@@ -1226,6 +1254,14 @@ class Translator:
         ins = [c for c in inner(v) if not c['kind'].endswith('Attr')]
         st = 'static ' if v.get('storageClass') == 'static' else ''
         name = self.local_name(v)
+        if ins:
+            x0 = strip_casts(ins[0])
+            if x0.get('kind') == 'CXXOperatorCallExpr' and self.callee_decl(x0)['name'] == 'operator[]' and \
+               qt(inner(x0)[1]['type']).replace('const ', '').startswith('std::vector<Matcher<'):
+                pre, x = self.with_pre(ind, lambda: self.e(inner(x0)[2]))
+                self.rules['decoder table lookup decoders[opcode] -> VERIF_DECODER_LOOKUP(opcode)'] += 1
+                self.decoder_vars.add(v['id'])
+                return pre + [p + 'verif_decoder %s = VERIF_DECODER_LOOKUP(%s);' % (name, x)]
         m = re.match(r'(.*)\[(\d+)\]$', q)
         if m:
             et = self.ctype_s(m.group(1))
@@ -1337,6 +1373,9 @@ class Translator:
     # ------------------------------------------------------------------ records / enums
     def field_dropped(self, q):
         q = q.replace('mutable ', '')
+        if q.replace('const ', '').startswith('std::vector<Matcher<'):
+            self.rules['decoder table member -> dropped (VERIF_DECODER_* hooks at its uses)'] += 1
+            return True
         return q in ('std::mutex', 'std::recursive_mutex') or q.startswith('std::lock_guard')
 
     def emit_record(self, d):
@@ -1418,7 +1457,7 @@ class Translator:
         self.renames = {}
         self.bindings = {}
         self.static_tables = {}
-        self.lambdas = {}
+        self.lambdas = {}; self.decoder_vars = set()
         ft = d['type']['qualType']
         ret = ft[:ft.index('(')].strip()
         params = []
@@ -1511,8 +1550,144 @@ class Translator:
                 out.append(r)
         return out
 
+    # ------------------------------------------------------------------ decode table (src/decoder.h)
+    def emit_decode_table(self, vq, calls=True):
+        """Translates the instantiation GetDecodeTable<vq>() entry by entry.  For entry k (table order) the generated C holds
+             vdec_<V>_match_k(instruction)   from MatcherCreator<..>::Create's `mask`, `expected` and the Except(..) rejectors (Matcher::Matches, Rejector::Rejects)
+             vdec_<V>_expanded_k             from Create's `expanded`
+             vdec_<V>_call_k(v, opcode, expansion)  from Proxy<..>::operator(): (visitor.*func)(Extract(opcode, expansion)...) with func bound to the entry's handler
+           and on top of them the selection of Decode<V> (first match in table order; undefined() when none; the single-match ASSERT is
+           exported as vdec_<V>_count for the C02 obligation).  Every expression is taken from the instantiated AST; nothing is evaluated here."""
+        tag = self.cident(vq.split('::')[-1])
+        fn = None
+        for c in self.funcs_by_qual.get('GetDecodeTable', []):
+            ta = [x for x in inner(c) if x.get('kind') == 'TemplateArgument']
+            if ta and qt(ta[0].get('type', {})) == vq and has_body(c): fn = c
+        if fn is None: raise SystemExit('EXTRACT-ABORT: no instantiation GetDecodeTable<%s> in this TU' % vq)
+        def find(n, kind):
+            if n.get('kind') == kind: return n
+            for x in inner(n):
+                r = find(x, kind)
+                if r is not None: return r
+            return None
+        il = find(fn, 'InitListExpr')
+        entries = inner(il)
+        name0 = 'vdec_%s' % tag
+        self.curfn = name0; self.loopno = 0
+        self.renames = {}; self.bindings = {}; self.static_tables = {}; self.lambdas = {}; self.decoder_vars = set(); self.pre_stmts = []
+        out = ['/* GENERATED from GetDecodeTable<%s>() (src/decoder.h): %d entries in table order */' % (vq, len(entries))]
+        protos = []
+        info = []
+        unused_entries = []
+        for k, ent in enumerate(entries):
+            x = strip_casts(ent)
+            rejs = []
+            while x.get('kind') == 'CXXMemberCallExpr':
+                me = inner(x)[0]
+                while me['kind'] != 'MemberExpr': me = inner(me)[0]
+                if me['name'] != 'Except': raise Unsupported('decode table entry: member call ' + me['name'])
+                rv = strip_casts(inner(x)[1])
+                while rv.get('kind') in ('CXXConstructExpr',): rv = strip_casts(inner(rv)[0])
+                if rv.get('kind') != 'DeclRefExpr': raise Unsupported('decode table entry: rejector expression ' + rv.get('kind'))
+                rejs.append(rv['referencedDecl']['id'])
+                x = strip_casts(inner(me)[0])
+            if x.get('kind') != 'CallExpr': raise Unsupported('decode table entry kind ' + x.get('kind'))
+            ci = inner(x)
+            crd = strip_casts(ci[0])
+            if crd.get('kind') != 'DeclRefExpr' or crd['referencedDecl'].get('name') != 'Create': raise Unsupported('decode table entry is not MatcherCreator::Create')
+            iname = strip_casts(ci[1])['value'].strip('"')
+            hx = strip_casts(ci[2])
+            if hx.get('kind') != 'UnaryOperator' or hx.get('opcode') != '&': raise Unsupported('decode table entry: handler is not &V::name')
+            hid = inner(hx)[0]['referencedDecl']['id']
+            cd = self.byid[self.defn.get(crd['referencedDecl']['id'], crd['referencedDecl']['id'])]
+            body = [c for c in inner(cd) if c.get('kind') == 'CompoundStmt'][0]
+            vars_ = {}
+            def collect(n):
+                if n.get('kind') == 'VarDecl': vars_[n['name']] = n
+                for c in inner(n): collect(c)
+            collect(body)
+            tmp = find(body, 'CXXTemporaryObjectExpr')
+            targs = inner(tmp)
+            mask_x = self.e([c for c in inner(vars_['mask']) if not c['kind'].endswith('Attr')][0])
+            exp_x = self.e([c for c in inner(vars_['expanded']) if not c['kind'].endswith('Attr')][0])
+            expected_x = self.e(targs[2])
+            rej_x = []
+            for rid in rejs:
+                rdv = self.byid[rid]
+                lst = find(rdv, 'InitListExpr')
+                if lst is None: raise Unsupported('rejector without initialiser list')
+                a, b = [self.e(q) for q in inner(lst)]
+                rej_x.append('(((instruction) & (u16)(%s)) == (u16)(%s))' % (a, b))      # Rejector::Rejects
+            out.append('static inline bool %s_match_%d(u16 instruction) { return ((instruction) & (u16)(%s)) == (u16)(%s)%s; }   /* %s */' % (
+                name0, k, mask_x, expected_x, ''.join(' && !' + r for r in rej_x), iname))
+            out.append('#define %s_expanded_%d ((bool)(%s))' % (name0, k, exp_x))
+            if calls:
+                # Proxy<OperandList<...>>::operator() of this MatcherCreator specialisation
+                par = self.parent.get(cd['id'])
+                ops = []
+                def findop(n):
+                    if n.get('kind') == 'CXXMethodDecl' and n.get('name') == 'operator()' and has_body(n): ops.append(n)
+                    for c in inner(n): findop(c)
+                findop(par)
+                if len(ops) != 1: raise Unsupported('decode table entry %d (%s): %d instantiated Proxy::operator() bodies' % (k, iname, len(ops)))
+                op = ops[0]
+                prm = [c for c in inner(op) if c.get('kind') == 'ParmVarDecl']
+                for pv, nm_ in zip(prm, ('visitor', 'opcode', 'expansion')): self.renames[pv['id']] = nm_
+                call = find(op, 'CXXMemberCallExpr')
+                cargs = inner(call)[1:]
+                callee = strip_casts(inner(call)[0])
+                if callee.get('kind') != 'BinaryOperator' or callee.get('opcode') != '.*': raise Unsupported('Proxy::operator() is not (visitor.*func)(...)')
+                hd = self.byid[self.defn.get(hid, hid)]
+                pre, cx = self.with_pre(1, lambda: '%s(%s)' % (self.use_func(hid), ', '.join(['visitor'] + self.call_args(cargs, hd))))
+                out.append('static void %s_call_%d(%s *visitor, u16 opcode, u16 expansion) {\n%s    %s;\n}' % (name0, k, tag, ''.join(q + '\n' for q in pre), cx))
+                # the operand values handed to the handler, as raw words (C02: bits marked Unused<> must not reach the handler)
+                um = sorted(set(re.findall(r'\bUnused_\d+_Mask\b', mask_x)))
+                if um:
+                    sig = []
+                    for j, a in enumerate(cargs):
+                        pre2, ax = self.with_pre(1, lambda: self.e(a))
+                        if pre2: raise Unsupported('decode table entry %d: operand expression needs statements' % k)
+                        sig.append('    { %s a_ = %s; out[%d] = 0; VERIF_PACK8(&out[%d], &a_, sizeof a_); }\n' % (self.ctype(a['type']).replace('const ', ''), ax, j, j))
+                    out.append('#define %s_unused_%d ((u16)(%s))' % (name0, k, ' | '.join(um)))
+                    out.append('static inline unsigned %s_args_%d(u16 opcode, u16 expansion, u64 *out) {\n%s    return %d; }' % (name0, k, ''.join(sig), len(cargs)))
+                    unused_entries.append((k, len(cargs)))
+            info.append((k, iname))
+        self.rules['decode table entry -> match/expanded/call functions'] += len(entries)
+        n = len(entries)
+        out.append('#define %s_ENTRIES %d' % (name0.upper(), n))
+        out.append('/* number of entries matching the instruction (Decode asserts this is at most 1) and the first one, -1 when none */')
+        out.append('static inline int %s_count(u16 instruction) { int c = 0;\n%s    return c; }' % (name0, ''.join('    c += %s_match_%d(instruction);\n' % (name0, k) for k in range(n))))
+        out.append('static inline int %s_first(u16 instruction) {\n%s    return -1; }' % (name0, ''.join('    if (%s_match_%d(instruction)) return %d;\n' % (name0, k, k) for k in range(n))))
+        out.append('static inline int %s_last(u16 instruction) {\n%s    return -1; }   /* the last matching entry: exactly one entry matches iff first == last >= 0 */' % (name0, ''.join('    if (%s_match_%d(instruction)) return %d;\n' % (name0, k, k) for k in reversed(range(n)))))
+        out.append('static inline bool %s_need_expansion(u16 instruction) { switch (%s_first(instruction)) {\n%s    default: return 0; } }   /* AllMatcher: expanded = false */' % (
+            name0, name0, ''.join('    case %d: return %s_expanded_%d;\n' % (k, name0, k) for k in range(n))))
+        out.append('static const char *const %s_names[%d] = {%s};' % (name0, n, ', '.join('"%s"' % nm_ for _, nm_ in info)))
+        if calls:
+            out.append('#define %s_MAXARGS %d' % (name0.upper(), max([a for _, a in unused_entries] + [1])))
+            out.append('/* entries with Unused<> bits: mask of those bits (0 for the other entries) and the operand words handed to the handler */')
+            out.append('static inline u16 %s_unused(int k) { switch (k) {\n%s    default: return 0; } }' % (name0, ''.join('    case %d: return %s_unused_%d;\n' % (k, name0, k) for k, _ in unused_entries)))
+            out.append('static inline unsigned %s_args(int k, u16 opcode, u16 expansion, u64 *out) { switch (k) {\n%s    default: return 0; } }' % (
+                name0, ''.join('    case %d: return %s_args_%d(opcode, expansion, out);\n' % (k, name0, k) for k, _ in unused_entries)))
+            und = [c for c in self.funcs_by_qual.get(vq + '::undefined', [])]
+            undx = self.use_func(und[0]['id']) if und else None
+            out.append('static void %s_call(%s *visitor, u16 opcode, u16 expansion) { switch (%s_first(opcode)) {\n%s    default: %s; break; } }' % (
+                name0, tag, name0, ''.join('    case %d: %s_call_%d(visitor, opcode, expansion); break;\n' % (k, name0, k) for k in range(n)),
+                ('%s(visitor, opcode)' % undx) if undx else 'VERIF_ASSERT(0)'))
+        self.out_funcs[name0] = '\n'.join(out) + '\n'
+        self.protos[name0] = '/* decode table %s: see _funcs.c */' % name0
+        self.func_src[name0] = ('GetDecodeTable<%s>' % vq, '/repo/src/decoder.h', 0)
+        self.curfn = None
+        return name0
+
     def run(self, roots, optional=False):
         rootnames = []
+        plain = []
+        for r in roots:
+            if r.startswith('DECODE_TABLE:') or r.startswith('DECODE_MATCH:'):
+                rootnames.append(self.emit_decode_table(r.split(':', 1)[1], calls=r.startswith('DECODE_TABLE:')))
+            else:
+                plain.append(r)
+        roots = plain
         for r in self.resolve_roots(list(roots)):
             cands = self.funcs_by_qual.get(r)
             if not cands:
@@ -1571,7 +1746,8 @@ class Translator:
             for k, v in self.records.items():
                 if v: f.write(v + '\n')
             for k, v in self.globals.items():
-                if v: f.write(v + '\n')
+                # guarded: two units translated from different TUs may define the same class-scope constant (identical text) in one harness
+                if v: f.write('#ifndef VERIF_G_%s\n#define VERIF_G_%s\n%s\n#endif\n' % (k, k, v))
         with open(path + '_protos.h', 'w') as f:
             f.write('/* GENERATED by extract/cxx2c.py from /repo -- plain prototypes (native builds against the real code) */\n')
             for k, v in self.stubs.items(): f.write(v + ';\n')
